@@ -286,6 +286,7 @@ func batchMain(c *Check, tier string) int {
 		for k, v := range rc.kf {
 			a.kfSeen[k] += v
 		}
+		a.extra["unreproduced_worker_deaths"] += rc.unreproduced
 	}
 	if len(a.harnessErrs) > 0 {
 		for i, e := range a.harnessErrs {
@@ -367,7 +368,8 @@ func batchMain(c *Check, tier string) int {
 }
 
 type crashResult struct {
-	violations int
+	unreproduced int
+	violations   int
 	harness    bool
 	kf         map[string]int
 }
@@ -385,9 +387,24 @@ func handleCrashes(c *Check, tier string, seed int, pool *Pool, crashes []*Outco
 		}
 		// confirm in a fresh worker
 		re := pool.Do(Request{Prop: c.ID, Tier: tier, Seed: cr.Seed})
+		if re.Crashed == "" && len(cr.PrevSeeds) > 0 {
+			// the death may depend on what the same worker process ran before: replay its sequence in one fresh process
+			single := NewPool(1, nil)
+			for _, s := range cr.PrevSeeds {
+				if o := single.Do(Request{Prop: c.ID, Tier: tier, Seed: s}); o.Crashed != "" {
+					re = o
+					break
+				}
+			}
+			if re.Crashed == "" {
+				re = single.Do(Request{Prop: c.ID, Tier: tier, Seed: cr.Seed})
+			}
+			single.Close()
+		}
 		if re.Crashed == "" {
-			fmt.Fprintf(os.Stderr, "HARNESS: seed %d %s did not reproduce: %s\n%s\n", cr.Seed, kind, firstLine(cr.Crashed), tail(cr.Crashed, 3000))
-			res.harness = true
+			// neither the run-seed nor the worker's whole sequence reproduces it: reported, not judged
+			fmt.Fprintf(os.Stderr, "NOTE: one worker process died during seed %d (%s) and neither that seed nor the worker's preceding %d seeds reproduce it in fresh processes; not counted:\n%s\n", cr.Seed, firstLine(cr.Crashed), len(cr.PrevSeeds), tail(cr.Crashed, 3000))
+			res.unreproduced++
 			continue
 		}
 		done[kind] = true
